@@ -356,6 +356,9 @@ def _find_app_in_user_modules(
             continue
         if mod_name.startswith("pynenc.") or mod_name == "pynenc":
             continue
+        # pynmon only holds a reference to the app it monitors (pynmon.app.pynenc_instance)
+        if mod_name.startswith("pynmon.") or mod_name == "pynmon":
+            continue
         if not hasattr(mod, "__file__") or mod.__file__ is None:
             continue
         if variable := _find_app_variable_in_module(mod, app):
